@@ -159,6 +159,8 @@ Definition set_t13 (c : cobj) (l : list tkt) : cobj :=
   {| c_sess := c_sess c; c_res := c_res c; c_t10 := c_t10 c; c_t13 := l; c_rms := c_rms c |}.
 Definition set_res (c : cobj) (b : bool) : cobj :=
   {| c_sess := c_sess c; c_res := b; c_t10 := c_t10 c; c_t13 := c_t13 c; c_rms := c_rms c |}.
+Definition set_rms (c : cobj) (x : Z) : cobj :=
+  {| c_sess := c_sess c; c_res := c_res c; c_t10 := c_t10 c; c_t13 := c_t13 c; c_rms := x |}.
 Definition set_csess (c : cobj) (s : sess) : cobj :=
   {| c_sess := s; c_res := c_res c; c_t10 := c_t10 c; c_t13 := c_t13 c; c_rms := c_rms c |}.
 
@@ -543,7 +545,8 @@ Inductive event :=
 | EForge (ci : Z) (which : Z) (n : Z)     (* replace it by bytes made without a key *)
 | EDevKeep (ci : Z)            (* deviating client: treats its tickets as just received *)
 | EDevRevive (ci : Z)          (* deviating client: ignores the invalidation *)
-| EDevSni (ci : Z) (sni : Z).  (* deviating client: offers the session under another server name *)
+| EDevSni (ci : Z) (sni : Z)   (* deviating client: offers the session under another server name *)
+| EDevRms (ci : Z).            (* deviating client: makes the PSK binder with another secret (garbage binder) *)
 
 Definition map_first {A} (f : A -> A) (l : list A) : list A :=
   match l with [] => [] | x :: r => f x :: r end.
@@ -607,6 +610,7 @@ Definition step (w : world) (e : event) : world :=
                                        (map (tk_keep (w_now w)) (c_t13 c)))
   | EDevRevive ci => on_client w ci (fun c => set_res c true)
   | EDevSni ci x => on_client w ci (fun c => set_csess c (sess_with_sni (c_sess c) x))
+  | EDevRms ci => on_client w ci (fun c => set_rms c (c_rms c + 1000000007))
   end.
 
 Definition run (h : list event) (w : world) : world := fold_left step h w.
